@@ -81,8 +81,19 @@ func recordedBase(vdir string) string {
 	return v.Tree
 }
 
-func replayOne(exe, prop, vdir, repo, patch string) (got, rule string) {
-	scratch, err := os.MkdirTemp("", "upfcheck-seed-")
+// The scratch copy lives at a path that depends only on the slot: the Go build cache keys compiled
+// packages by their directory, so a fresh random directory per replay would add a full set of cache
+// entries for the repository's packages every time (tens of MB × thousands of replays).
+func replayOne(exe, prop, vdir, repo, patch string, slot int) (got, rule string) {
+	var scratch string
+	var err error
+	if slot >= 0 {
+		scratch = filepath.Join(os.TempDir(), fmt.Sprintf("upfcheck-replay-%d", slot))
+		os.RemoveAll(scratch)
+		err = os.MkdirAll(scratch, 0o755)
+	} else {
+		scratch, err = os.MkdirTemp("", "upfcheck-seed-")
+	}
 	if err != nil {
 		return "cannot create scratch directory: " + err.Error(), ""
 	}
@@ -183,9 +194,9 @@ func replaySeeds(prop, vdir, repo string) []seedReplay {
 			sem <- struct{}{}
 			defer func() { <-sem }()
 			// machine-wide cap: thorough runs of several properties may be started side by side
-			release := acquireSlot()
+			slot, release := acquireSlot()
 			defer release()
-			got, rule := replayOne(exe, prop, vdir, repo, j.patch)
+			got, rule := replayOne(exe, prop, vdir, repo, j.patch, slot)
 			out[i] = seedReplay{Seed: j.name, Expected: j.expect, Got: got, Rule: rule}
 		}(i, j)
 	}
@@ -196,15 +207,15 @@ func replaySeeds(prop, vdir, repo string) []seedReplay {
 // acquireSlot takes one of 12 advisory file locks in the temp directory, so that at most 12 replay
 // children run on the machine at a time however many thorough checks were started (each child is a
 // full load of the repository, about 1.2 GB).
-func acquireSlot() func() {
+func acquireSlot() (int, func()) {
 	for {
 		for i := 0; i < 12; i++ {
 			f, err := os.OpenFile(filepath.Join(os.TempDir(), fmt.Sprintf("upfcheck-replay-slot-%d.lock", i)), os.O_CREATE|os.O_RDWR, 0o666)
 			if err != nil {
-				return func() {} // no temp directory to coordinate in: run unthrottled
+				return -1, func() {} // no temp directory to coordinate in: run unthrottled
 			}
 			if syscall.Flock(int(f.Fd()), syscall.LOCK_EX|syscall.LOCK_NB) == nil {
-				return func() { syscall.Flock(int(f.Fd()), syscall.LOCK_UN); f.Close() }
+				return i, func() { syscall.Flock(int(f.Fd()), syscall.LOCK_UN); f.Close() }
 			}
 			f.Close()
 		}
